@@ -424,6 +424,14 @@ def XLT(a, b):
     return _f(a) < _f(b)
 
 
+def XGE(a, b):
+    return XLE(b, a)
+
+
+def XGT(a, b):
+    return XLT(b, a)
+
+
 def XEQ(a, b):
     if _sym(a, b):
         return to_z3(a) == to_z3(b)
